@@ -58,11 +58,16 @@ func (w Resolver) Resolve(id did.DID, _ *resolver.ResolveMetadata) (*did.Documen
 	if err != nil {
 		return nil, nil, err
 	}
+	suffix := "/did.json"
 	if len(baseURL.Path) == 0 {
 		// if the id doesn't contain a path we set '/.well-known/did.json' s path
-		baseURL.Path = "/.well-known"
+		suffix = "/.well-known/did.json"
 	}
-	baseURL.Path = baseURL.Path + "/did.json"
+	baseURL.Path = baseURL.Path + suffix
+	if baseURL.RawPath != "" {
+		// keep the encoded form in sync, otherwise encoded characters of the DID (e.g. %2F) are requested decoded
+		baseURL.RawPath = baseURL.RawPath + suffix
+	}
 	targetURL := baseURL.String()
 
 	// TODO: Support DNS over HTTPS (DOH), https://www.rfc-editor.org/rfc/rfc8484
